@@ -32,6 +32,23 @@ class HDict(dict):
         return hash(frozenset((k, _h(v)) for k, v in self.items()))
 
 
+class FoldedMatch:
+    """the result of re.match / re.search / re.fullmatch on two constants, when there is a match: its groups (0 = whole)"""
+    __slots__ = ("groups",)
+
+    def __init__(self, groups: tuple):
+        self.groups = groups
+
+    def __hash__(self) -> int:
+        return hash(("FoldedMatch", self.groups))
+
+    def __eq__(self, other: Any) -> bool:
+        return isinstance(other, FoldedMatch) and other.groups == self.groups
+
+    def __repr__(self) -> str:
+        return f"<match {self.groups[0]!r}>"
+
+
 def _h(v: Any) -> Any:
     try:
         hash(v)
@@ -326,8 +343,8 @@ class _Builder:
                     conv = {-1: "", 115: "s", 114: "r", 97: "a"}.get(v.conversion, "?")
                     spec = self.ev(v.format_spec) if v.format_spec is not None else None
                     val = self.ev(v.value)
-                    if val[0] == "c" and isinstance(val[1], str) and conv in ("", "s") and spec is None:
-                        parts.append(C(val[1]))
+                    if val[0] == "c" and (isinstance(val[1], (str, int, bool)) or val[1] is None) and conv in ("", "s") and spec is None:
+                        parts.append(C(str(val[1])))
                     else:
                         parts.append(("fmt", val, conv, spec))
             if all(p[0] == "c" for p in parts):
